@@ -76,6 +76,10 @@ def _violate(fmt, recs, r, cls):
         recs[r][2] = b'-\n'
     elif cls == 'plus_deleted':
         del recs[r][2]          # the '+' line is really missing: every later line is shifted by one
+    elif cls == 'truncated':
+        # the LAST record is cut short (r selects how many of its lines are kept: 1 .. lines-1)
+        keep = 1 + r % (len(recs[-1]) - 1)
+        recs[-1] = recs[-1][:keep]
     elif cls == 'ncols_more':
         recs[r][0] = recs[r][0].rstrip(b'\n') + b'\textra\n'
     elif cls == 'ncols_less':
@@ -85,7 +89,7 @@ def _violate(fmt, recs, r, cls):
 
 
 CLASSES = {'bed3': ['int', 'ncols_more', 'ncols_less'], 'bed6': ['strand', 'int', 'score', 'ncols_less'],
-           'bdg': ['int', 'float_char', 'float_dots', 'float_nodigit'], 'fq': ['marker', 'plus', 'plus_deleted'], 'fa2': ['marker'], 'mfa': ['marker']}
+           'bdg': ['int', 'float_char', 'float_dots', 'float_nodigit'], 'fq': ['marker', 'plus', 'plus_deleted', 'truncated'], 'fa2': ['marker', 'truncated'], 'mfa': ['marker']}
 
 
 def generate(tier, seed):
@@ -109,6 +113,8 @@ def generate(tier, seed):
                 expected = None
                 if cls is not None:
                     expected = r * lines_per + (2 if cls in ('plus', 'plus_deleted') else 0)
+                    if cls == 'truncated' or (cls == 'plus_deleted' and r == n - 1):
+                        expected = (n - 1) * lines_per          # an incomplete last record is reported at its first line
                 size = len(data)
                 if tier == 'quick' and n > 2:
                     ks = sorted(set([0, 1, 2, size // n, size // n + 1, size - 1, size, size + 1] + [rng.randint(1, size + 2) for _ in range(4)]))
@@ -208,10 +214,6 @@ def distribution(cases, obs):
 def finding(case, o):
     if case['cls'] in ('ncols_more', 'ncols_less') and o.get('kind') == 'NoError':
         return 'C15-column-count-accepted'
-    if (case['cls'] == 'plus_deleted' and case['r'] == case['n'] - 1 and o.get('kind') == 'NoError'
-            and o.get('rows') == case['n'] - 1):
-        # exactly the listed failure: the three remaining lines of the last record are dropped at end of file
-        return 'C15-missing-plus-in-final-record-dropped'
     return None
 
 
